@@ -68,7 +68,7 @@ def run(ctx, drv):
                            "longer than nobjs, values = exact multiples of epsilon, their float neighbours, negatives, tiny and huge; "
                            "mixed directions; 30% constrained. lattice stream (values k/8, eps in {1,.5,.25,2,.75,1.5}) is sent to "
                            "both the Float and the exact instance. non-trivial pair = same box or comparable boxes; non-trivial "
-                           "history = >= 1 rejection, >= 1 eviction and >= 1 same-box replacement; distinct by request line")
+                           "history = >= 1 rejection, >= 1 eviction and >= 1 same-box replacement; distinct by request line + archives built by algorithm constructors from their epsilons argument; extend / += with lists, generators and other archives (same or other epsilons) against repeated add")
     reqs, post = [], []
 
     def ask(line, fn):
@@ -259,6 +259,53 @@ def run(ctx, drv):
                  {"epsilons": eps, "maximise": list(dirs), "history_objs": [list(s.objectives) for s in sols[:6]], "final_members": trace[-1][1] if trace else [],
                   "improvements": trace[-1][2] if trace else 0} if k < 2 else None)
 
+    # ------------------------------------------------------------------ the other insertion entry points: extend / += with
+    # lists, generators and other archives (with the same or other epsilons) are repeated `add`
+    for k in range(300 if ctx.quick() else 5000):
+        lattice = k % 3 == 0
+        n, dirs, constrained, eps, p = gen_problem(rng, lattice)
+        sols = [gen_sol(rng, p, n, eps, constrained, lattice) for _ in range(rng.randrange(1, 25))]
+        plain = k % 4 == 3
+        mk = (lambda e: C.Archive(C.EpsilonDominance(list(e)))) if plain else (lambda e: C.EpsilonBoxArchive(list(e)))
+        eps2 = list(eps) if rng.random() < 0.5 else [rng.choice([0.05, 0.1, 0.25, 1.0]) for _ in range(rng.randrange(1, n + 1))]
+        src = mk(eps2)
+        for s_ in sols:
+            call(src.add, s_)
+        how = rng.choice(["+= archive", "+= archive", "+= list", "extend list", "extend generator", "+= generator"])
+        items = list(src) if "archive" in how else list(sols)
+        dst = mk(eps)
+        if rng.random() < 0.3 and sols:
+            call(dst.add, sols[0])                      # receiver not empty
+        ref = mk(eps)
+        for m_ in list(dst):
+            ref.add(m_)
+
+        def merge():
+            nonlocal dst
+            if how == "+= archive":
+                dst += src
+            elif how == "+= list":
+                dst += list(items)
+            elif how == "+= generator":
+                dst += (x for x in items)
+            elif how == "extend list":
+                dst.extend(list(items))
+            else:
+                dst.extend(x for x in items)
+        r = call(merge)
+        for m_ in items:
+            ref.add(m_)
+        inp = {"maximise": list(dirs), "constrained": constrained, "epsilons": eps, "source_epsilons": eps2, "how": how,
+               "archive": "Archive(EpsilonDominance)" if plain else "EpsilonBoxArchive", "offered": [[list(s_.objectives), s_.constraint_violation] for s_ in items]}
+        if isinstance(r, str):
+            ctx.fail("add-raises", inp, r, "merged archive", "core.Archive.__iadd__ / extend")
+        else:
+            a_, b_ = [id(m_) for m_ in dst], [id(m_) for m_ in ref]
+            if a_ != b_ or getattr(dst, "improvements", None) != getattr(ref, "improvements", None):
+                ctx.fail("merge-is-not-repeated-add", inp, {"members": len(a_), "improvements": getattr(dst, "improvements", None)},
+                         {"members": len(b_), "improvements": getattr(ref, "improvements", None)}, "core.Archive.__iadd__ / extend")
+        ctx.case(("merge", k, how), len(items) > 1)
+    ctx.count("merge_entry_points", 300 if ctx.quick() else 5000)
     if drv.ok:
         out = drv.batch(reqs)
         for g, fn in zip(out, post):
